@@ -51,3 +51,7 @@ Definition framing_for (fs : list (bytes * bytes)) (body_len : nat) (framing : l
   if declared_chunked fs then framing = []                      (* the user's own Transfer-Encoding field is the one *)
   else framing = [(bs "content-length", dec_of (N.of_nat body_len))] \/
        (declared_length fs = None /\ framing = [(bs "transfer-encoding", bs "chunked")]).
+
+(* what the printer theorems assume of their inputs *)
+Definition inputs_ok (code : N) (reason : bytes) (fs : list (bytes * bytes)) (dv : bytes) : Prop :=
+  (100 <= code <= 999)%N /\ no_crlf reason = true /\ wf_user_fields fs = true /\ wf_date_value dv = true.
